@@ -31,6 +31,7 @@ type UnitSpec struct {
 	AppendDouble bool   `json:"append_double,omitempty"`
 	Reveal     bool     `json:"reveal,omitempty"`
 	RevealOnly []string `json:"reveal_only,omitempty"` // expand only these opaque spec functions (short names)
+	Prune      bool     `json:"prune,omitempty"`    // path mode: solver-checked pruning of infeasible branches
 	Paths      bool     `json:"paths,omitempty"`    // path mode (bounded lemmas): fork at branches, never merge
 	Ints       string   `json:"ints,omitempty"`     // "math": Go's int is a mathematical integer in this unit
 	Overflow   bool     `json:"overflow,omitempty"` // with ints=math: obligations that int arithmetic stays in 64 bits
@@ -194,6 +195,7 @@ func RunProperty(id, tier string) int {
 		SetIntMode(us.Ints == "math")
 		opt.Overflow = us.Overflow
 		opt.Paths = us.Paths
+		opt.Prune = us.Prune
 		opt.MaxRec = us.MaxRec
 		opt.AppendDouble = us.AppendDouble
 		if us.Ints == "math" && !us.Overflow {
